@@ -11,7 +11,7 @@ import copy
 
 from .. import bridge, keyworld, seams
 from ..ref import armor as rarmor, tkey as rtkey
-from ..ref.wire import WireError, split_packets
+from ..ref.wire import WireError, encode_packet, split_packets
 
 ID = 'C14'
 RULE = ('cases are key-management histories of 6-30 steps over 2-3 keys with export/import hops (public/private, binary/armor, '
@@ -20,7 +20,7 @@ RULE = ('cases are key-management histories of 6-30 steps over 2-3 keys with exp
         'revocation, crossed an export/import hop and the structural comparison ran; distinct = distinct step-kind sequences')
 TIERS = {"quick": {"runs": 8000, "budget_s": 90}, "thorough": {"runs": 300000, "budget_s": 1500}}
 PROBES = ('nonexportable_direct', 'same_second_pair_on_component', 'subsecond_pair_lost_on_wire', 'nonexportable_cert', 'explicit_exportable_true',
-          'trust_packets', 'coalesced_blob', 'copy_compared', 'fixed_point_checked', 'twin_held', 'twin_collected', 'protected_export',
+          'trust_packets', 'coalesced_blob', 'copy_compared', 'copy_of_respelled_import_compared', 'fixed_point_checked', 'twin_held', 'twin_collected', 'protected_export',
           'uattr', 'revoker', 'hop_private', 'hop_public')
 WEIGHTS = {'direct_other': 1.2, 'tick': 2.0, 'export_import': 2.5, 'certify_other': 2.0, 'recertify': 1.5, 'copy_key': 0.8, 'add_uid': 1.2, 'protect': 0.3,
            'derive_pub': 0.3, 'drop_pub': 0.2, 'revoke_subkey_by_other': 0.6}
@@ -92,6 +92,29 @@ def compare_structure(ctx, what, mk, keybytes, sig_prefix='C14'):
     return tk
 
 
+def _respell_unhashed(p):
+    b = p.body
+    if p.tag != 2 or not b or b[0] != 4 or len(b) < 10:
+        return p.raw
+    hl = int.from_bytes(b[4:6], 'big')
+    uo = 6 + hl
+    ul = int.from_bytes(b[uo:uo + 2], 'big')
+    area, i, out = b[uo + 2:uo + 2 + ul], 0, bytearray()
+    while i < len(area):
+        f = area[i]
+        if f < 192:
+            n, i = f, i + 1
+        elif f < 255:
+            n, i = ((f - 192) << 8) + area[i + 1] + 192, i + 2
+        else:
+            n, i = int.from_bytes(area[i + 1:i + 5], 'big'), i + 5
+        out += b'\xff' + n.to_bytes(4, 'big') + area[i:i + n]
+        i += n
+    if i != len(area) or len(out) > 65535:
+        return p.raw
+    return encode_packet(2, b[:uo] + len(out).to_bytes(2, 'big') + bytes(out) + b[uo + 2 + ul:])
+
+
 def execute(case, ctx):
     cfg = case['config']
 
@@ -147,6 +170,19 @@ def execute(case, ctx):
         ctx.checked()
         if bytes(old) != bytes(new):
             ctx.viol('C14:copy-differs', 'a copy of the key exports other octets than the original')
+        # the same key as another writer may spell it: every subpacket of the unhashed areas with a five-octet length (legal, not
+        # covered by any signature).  Imported, then copied: the copy exports what the imported key exports.
+        try:
+            blob = b''.join(_respell_unhashed(p) for p in split_packets(bytes(old)))
+            k2 = h.pgpy.PGPKey.from_blob(blob)[0]
+            b2 = bytes(k2)
+        except Exception:
+            return
+        ctx.probe('copy_of_respelled_import_compared')
+        ctx.checked()
+        if bytes(copy.copy(k2)) != b2:
+            ctx.viol('C14:copy-differs:respelled-unhashed', 'a copy of a key imported with five-octet subpacket lengths in its unhashed areas exports '
+                     'other octets than that key')
 
     h = keyworld.KeyHistory(cfg['keys'], ctx, {'before_import': before_import, 'after_import': after_import, 'on_copy': on_copy})
     seams.clock().set(cfg.get('start_us', 1_600_000_000_000_000))
